@@ -382,12 +382,17 @@ func isolationHistories(o *Out) {
 		"module mod {\nmake(type Secret, 1)\nmake(type T, true)\nfunc g() { make(type Secret, 2) }\n}\nmod.g()",
 		"func f() {\nvar hidden = 1\nhidden2 = 2\nfunc inner() { make(type Secret, 3) }\ninner()\n}\nf()",
 		"go func() {\nmake(type Secret, 4)\n}()\nfunc() {\ndefer func() { make(type T, 5) }()\n}()",
+		// stores through everything that evaluates to nil (a missing entry, a function without result, the value of a two-value lookup)
+		"conf = {}\ntry {\nconf.db[\"host\"] = 1\n} catch e {\n}\ntry {\nconf[\"db\"][\"port\"] = 1\n} catch e {\n}\ntry {\nconf.db.user = 1\n} catch e {\n}",
+		"cache = {}\nentry, ok = cache[\"k\"]\ntry {\nentry[\"n\"] = 1\n} catch e {\n}\ntry {\nentry.m = 1\n} catch e {\n}\nfunc f() { }\ntry {\nf()[\"x\"] = 1\n} catch e {\n}\ntry {\nf().y = 2\n} catch e {\n}",
+		"x = nil\ntry {\nx[\"k\"] = 1\n} catch e {\n}\ntry {\nx[0] = 1\n} catch e {\n}\ny = nil\ntry {\ny += [1]\n} catch e {\n}\ntry {\n*y = 3\n} catch e {\n}",
 	}
 	probes := []string{
 		"func g() {\nreturn make(Secret)\n}\ntry {\ng()\nprobe(\"Secret is defined\")\n} catch e {\nprobe(\"undefined\")\n}",
 		"make(type T, 7)\nfunc g() {\nreturn make(T)\n}\nprobe(g())\nfunc h(a, b, c, d, e) {\nreturn make([]T, 1)\n}\nprobe(h(1, 2, 3, 4, 5))",
 		"func g() {\nreturn [hidden ?? \"unseen\", hidden2 ?? \"unseen\"]\n}\nprobe(g())",
 		"func g() {\nif true {\nreturn make(map[string]Secret)\n}\n}\ntry {\ng()\nprobe(\"Secret is defined\")\n} catch e {\nprobe(\"undefined\")\n}",
+		"func f() { }\nm = {}\nv, ok = m[\"nope\"]\nprobe([f(), m[\"nope\"], m.nope, v, ok, nil ?? \"dflt\"])",
 	}
 	var base []string
 	var trees []ast.Stmt
